@@ -106,6 +106,27 @@ CHECKS = {
             "No ties (pairwise gaps >= 0.05); Gumbel recognised statistically by non-coincidence "
             "with the noise-free softmax.",
             "DESIGN.md 4/C10"),
+    'C03': ("differential testing over Hypothesis-generated SuperNets with all / sampled winner "
+            "combinations: exported network vs hard SuperNet vs independently built "
+            "winning-branch reference",
+            "Generated-input search over networks with 1..3 choice blocks of 2..12 branches of five "
+            "kinds (incl. user blocks with functional tails, Identity, blocks applied twice); for "
+            "each network every combination of winners (<=64) or a covering sample is exported and "
+            "compared with the SuperNet under hard selection AND with a reference network built "
+            "from the same specification that contains only the winning branches; module tree and "
+            "bit-equality of surviving parameters are asserted.",
+            "Tolerance 1e-5 relative for the weighted-sum vs plain forward; branches share the "
+            "output shape (README).",
+            "DESIGN.md 4/C03"),
+    'C06': ("Hypothesis-generated SuperNets/coefficients; cost vs float64 mix of from-scratch "
+            "per-branch metrics measured on the user's model; bracket and exported-network equality",
+            "Generated-input search over the C03 networks with params/ops metrics (+no-bias), dict "
+            "specs, full_cost on/off, soft/hard/Gumbel sampling in train and eval; the oracle reads "
+            "the sampled coefficients and recomputes the mix from per-branch costs counted from "
+            "scratch (actual numel, MACs per call site); checks the [cheapest, most expensive] "
+            "bracket and, under hard selection, equality with the metric of the exported network.",
+            "Relative tolerance 1e-5; sampled coefficients taken as given (C10 checks them).",
+            "DESIGN.md 4/C06"),
 }
 
 NOT_YET = "check not built yet in this session; planned with property-based testing per DESIGN.md section 4"
